@@ -243,15 +243,17 @@ def c18_variants(prop, tier, seed, outdir):
         procs[tags] = (subprocess.Popen([out, "-seed", str(seed), "-tier", tier, "-out", tf],
                                         stdout=subprocess.PIPE, stderr=subprocess.STDOUT, text=True), tf)
     lines = {}
+    partial = set()
     tmo = int(os.environ.get("VERIF_TIMEOUT", "5400" if tier == "thorough" else "900"))
     for tags, (p, tf) in procs.items():
         try:
             outp, _ = p.communicate(timeout=tmo)
         except subprocess.TimeoutExpired:
             p.kill()
-            res["inconclusive"].append("ctprog variant [%s]: watchdog fired" % tags)
-            continue
-        if p.returncode != 0:
+            res["inconclusive"].append("ctprog variant [%s]: watchdog fired; its partial transcript is still compared" % tags)
+            partial.add(tags)
+            outp = ""
+        if tags not in partial and p.returncode != 0:
             key = "%s/variant/%s/ctprog/process-died" % (prop, label(tags))
             res["violations"].append(dict(key=key, what="transcript program died (uncaught fatal error in code under test)", count=1,
                                           detail=dict(rc=p.returncode, output_tail=(outp or "")[-3000:], tags=tags)))
@@ -281,7 +283,7 @@ def c18_variants(prop, tier, seed, outdir):
         a, b = lines[ta][part], lines[tb][part]
         pair = "%s-vs-%s" % (label(ta), label(tb))
         cls = "variant/%s/%s" % (pair, "common" if part == "C" else "full")
-        if len(a) != len(b):
+        if len(a) != len(b) and ta not in partial and tb not in partial:
             key = "%s/variant/%s/%s/line-count" % (prop, pair, "common" if part == "C" else "full")
             viol[key] = dict(key=key, what="transcripts have different numbers of lines (%d vs %d)" % (len(a), len(b)), count=1,
                              detail=dict(tagsA=ta, tagsB=tb))
